@@ -327,6 +327,23 @@ Section Proofs.
         + eapply forward_one_keeps_inv; eassumption.
     Qed.
 
+    (* the same for ANY chain of events each describing one transition of the contents as the
+       subscriber knows them — in particular the merged ADD/UPDATE/REMOVE/REPLACE events of lossy
+       delivery, which C09's invariant shows to be valid against the receiver's own view *)
+    Inductive chain : list (string * item) -> list cevent -> list (string * item) -> Prop :=
+    | chain_nil l : chain l [] l
+    | chain_cons l e l1 evs l2 : describes e l l1 -> chain l1 evs l2 -> chain l (e :: evs) l2.
+
+    Theorem chain_keeps_view evs : forall l l' view,
+      chain l evs l' -> view_inv view l ->
+      view_inv (fold_left (@apply_change M) (c_forward_gen r_filter None false false ro evs) view) l'.
+    Proof.
+      induction evs as [|e r IH]; intros l l' view C Hv; inversion C; subst.
+      - simpl. exact Hv.
+      - change (e :: r) with ([e] ++ r). rewrite c_forward_app, fold_left_app.
+        eapply IH; [eassumption|]. eapply forward_one_keeps_inv; eassumption.
+    Qed.
+
     (* the seed establishes the invariant *)
     Lemma seeds_fold (l : list (string * item)) : forall view,
       fold_left (@apply_change M) (seeds r_filter ro l) view =
